@@ -254,8 +254,8 @@ class ProgramModel:
             compiled = glob.glob(base + ".*.so") + glob.glob(base + ".so") + glob.glob(base + ".pyi")
             if compiled:
                 u = "opaque"
-            elif not os.path.exists(os.path.dirname(base)) and not modname.split(".")[0] in (
-                    "sklearn", "numpy", "scipy", "ot"):
+            elif modname.split(".")[0] in getattr(__import__("sys"), "stdlib_module_names", ()) and not os.path.exists(
+                    os.path.join(self.site, modname.split(".")[0])):
                 u = "stdlib"
             else:
                 u = None
@@ -292,6 +292,20 @@ class ProgramModel:
         # a submodule?
         if self.ext_unit(modname + "." + symbol) is not None:
             return ("module", None, None)
+        # star imports
+        for n in u.tree.body:
+            if isinstance(n, ast.ImportFrom) and any(a.name == "*" for a in n.names):
+                base = modname.split(".")
+                if n.level:
+                    isinit = os.path.basename(u.path) == "__init__.py"
+                    b = base if isinit else base[:-1]
+                    b = b[:len(b) - (n.level - 1)]
+                    m2 = ".".join(b + ([n.module] if n.module else []))
+                else:
+                    m2 = n.module
+                r = self.ext_symbol(m2, symbol, depth + 1)
+                if r is not None:
+                    return r
         # lazily defined (__getattr__) or conditional definitions: search whole tree
         for n in ast.walk(u.tree):
             if isinstance(n, (ast.FunctionDef, ast.ClassDef)) and n.name == symbol:
